@@ -289,6 +289,8 @@ def d4(chk):
                 writers.append(fobj.ref)
     chk.inst("D4", "beyond/propagators/cw.py::ClohessyWiltshire::_n-sources", not writers, "sma and frame are written only by the constructor" if not writers else f"{writers} write a source of the cached mean motion without dropping it", "beyond/propagators/cw.py")
     from ..ownership import fresh_infos, memo_census
+    from ..ownership import shared_class_state
+    shared_class_state(chk, "D4")
     fresh_infos(chk, "D4")
     memo_census(chk, "D4")
     chk.floor("D4", 8 + 12)
